@@ -195,9 +195,11 @@ var ufn = &ugo.Function{Name: "U", Value: func(args ...ugo.Object) (ugo.Object, 
 type form struct {
 	name string
 	// build returns the program given the body (statements computing `r`) for name N
-	build  func(n string, body string) prog
+	build func(n string, body string) prog
 	// hidden: the binding is not in scope at the use site, the name still means the builtin there
 	hidden bool
+	// constLit: the name is bound to a literal constant (const N = 5)
+	constLit bool
 }
 
 const pre = "global (L); var r; U := func(...a) { return 99 }; id := func(a) { return a }; "
@@ -209,7 +211,7 @@ func forms() []form {
 		{name: "var", build: func(n, b string) prog { return p(pre + "var " + n + " = U; " + b + "; return r") }},
 		{name: "var-then-assign", build: func(n, b string) prog { return p(pre + "var " + n + "; " + n + " = U; " + b + "; return r") }},
 		{name: "const-nonliteral", build: func(n, b string) prog { return p(pre + "const " + n + " = U; " + b + "; return r") }},
-		{name: "const-literal", build: func(n, b string) prog { return p(pre + "const " + n + " = 5; " + b + "; return r") }},
+		{name: "const-literal", constLit: true, build: func(n, b string) prog { return p(pre + "const " + n + " = 5; " + b + "; return r") }},
 		{name: "param", build: func(n, b string) prog {
 			return prog{src: "param (" + n + "); " + pre + b + "; return r", args: []ugo.Object{ufn}}
 		}},
@@ -306,6 +308,11 @@ func g1(c *fw.Ctx) {
 						if f.hidden {
 							// the use expression is a constant expression over the builtin
 							p.constSub = []string{"func() { const k = 2; return " + u + " }()", "func() { const k = 2; return " + s.mk(u)[strings.Index(s.mk(u), u):] + " }()"}
+						}
+						if f.constLit {
+							// the name is a literal constant of the script: its uses are constant sub-expressions, and calling
+							// the constant is the script's own (constant) runtime error
+							p.constSub = append(p.constSub, "func() { const k = 2; const "+n+" = 5; return "+u+" }()")
 						}
 						if mode == 2 {
 							p.constSub = append(p.constSub, "func() { const k = 2; return "+n+"(\"7\") * k }()", "func() { const k = 2; return k + "+n+"(1) }()")
